@@ -9,6 +9,7 @@ import (
 	"io"
 	"os"
 	"path/filepath"
+	"strings"
 	"runtime/debug"
 	"testing"
 
@@ -271,7 +272,27 @@ func vfGenC15(rt *rapid.T) vfC15Case {
 	var cs vfC15Case
 	big := rapid.IntRange(0, 19).Draw(rt, "bigtree") == 0
 	top := vfGenFsName(rt, "top")
-	if big {
+	deep := !big && rapid.IntRange(0, 11).Draw(rt, "deeptree") == 0
+	if deep {
+		// a long chain of directories that all have the same name, or a few very long repetitive names: the relative path in an
+		// entry header then is long and compresses extremely well
+		name := rapid.SampledFrom([]string{"node_modules", "数据目录", "d", strings.Repeat("ab", 90), strings.Repeat("x", 200)}).Draw(rt, "deepname")
+		depth := rapid.IntRange(20, 32).Draw(rt, "deepdepth")
+		if len(name) > 100 {
+			depth = rapid.IntRange(2, 6).Draw(rt, "deepdepth_long")
+		} else if len(name) == 1 {
+			depth = rapid.IntRange(60, 90).Draw(rt, "deepdepth_short")
+		}
+		rel := []string{top}
+		cs.Tree.Files = append(cs.Tree.Files, vfFile{Rel: []string{top}, IsDir: true})
+		for i := 0; i < depth; i++ {
+			rel = append(append([]string(nil), rel...), name)
+			cs.Tree.Files = append(cs.Tree.Files, vfFile{Rel: rel, IsDir: true})
+			if i%7 == 3 || i == depth-1 {
+				cs.Tree.Files = append(cs.Tree.Files, vfFile{Rel: append(append([]string(nil), rel...), "f.txt"), Size: int64(10 + i), Kind: vfKindText, Seed: uint64(i + 1)})
+			}
+		}
+	} else if big {
 		// many entries: descriptor use must not grow with the entry count
 		n := rapid.IntRange(120, 400).Draw(rt, "nentries")
 		cs.Tree.Files = append(cs.Tree.Files, vfFile{Rel: []string{top}, IsDir: true})
@@ -327,6 +348,12 @@ func TestVF_C15(t *testing.T) {
 		var labels []string
 		if res.entries >= 100 {
 			labels = append(labels, "entries>=100")
+		}
+		for _, f := range cs.Tree.Files {
+			if len(f.Rel) > 15 || (len(f.Rel) > 1 && len(f.Rel[1]) > 150) {
+				labels = append(labels, "deep_or_long_repetitive_paths")
+				break
+			}
 		}
 		if res.headerCut {
 			labels = append(labels, "cut_inside_header")
